@@ -1,5 +1,7 @@
 import CkbVerif.Driver.Util
 import CkbVerif.Model.Store
+import CkbVerif.Model.StoreV
+import CkbVerif.Model.StoreMMR
 import CkbVerif.Model.Fork
 
 /-! Line-protocol driver for C02 (protocol: see harness/n02/src/c02.rs).  Every state-changing op
@@ -16,6 +18,14 @@ structure St where
   /-- views after every state op (snapshots are values) -/
   snaps : Array View := #[]
   elen : Nat := 0
+  /-- blocks flagged invalid by an `xblock … bad=<kind>` line (a rule outside the store model) -/
+  bad : List Nat := []
+  /-- `xcols 1`: the dump also prints COLUMN_CHAIN_ROOT_MMR (every row, stale ones included) -/
+  xcols : Bool := false
+  /-- the column as data (position → row); a closure here would be re-evaluated per look-up -/
+  mmr : Array (Option Digest) := #[]
+  /-- the column at every snapshot -/
+  msnaps : Array (Array (Option Digest)) := #[]
 
 def lookup {β : Type} (l : List (Nat × β)) (k : Nat) : Option β :=
   match l.find? (fun p => p.1 == k) with
@@ -97,7 +107,12 @@ def dump (s : St) (v : View) : String :=
     s!"{b}:{vs}/{e.td}/{e.uncles}/{fs}"
   let metaS := (match v.m.tip with | some t => [s!"tip:{t}"] | none => []) ++
     (match v.m.curEpoch with | some e => [s!"cur:{e.number}/{e.start}/{e.length}/{e.key}"] | none => [])
-  s!"cell={join cell} data={join data} dhash={join data} txinfo={join txinfo} index={join index} rindex={join rindex} uncles={join uncles} bepoch={join bepoch} epoch={join epoch} epnum={join epnum} ext={join ext} meta={join metaS}"
+  let base := s!"cell={join cell} data={join data} dhash={join data} txinfo={join txinfo} index={join index} rindex={join rindex} uncles={join uncles} bepoch={join bepoch} epoch={join epoch} epnum={join epnum} ext={join ext} meta={join metaS}"
+  if s.xcols then
+    let rows := (List.range (MMR.leafIndexToMmrSize (maxNum + 1) + 2)).filterMap fun p =>
+      (s.mmr.getD p none).map fun d => s!"{p}:{".".intercalate (d.map toString)}"
+    base ++ s!" mmr={join rows}"
+  else base
 
 def kv (tok key : String) : Option String :=
   if tok.startsWith (key ++ "=") then some (tok.drop (key.length + 1)).toString else none
@@ -126,8 +141,21 @@ def parseEp (s : String) : Option Ep :=
 /-- record the new view as a snapshot and answer with its dump -/
 def commit (s : St) (v : View) (pre : String) : St × String :=
   let v := normalize s v
-  let s := { s with v := v, snaps := s.snaps.push v }
+  let s := { s with v := v, snaps := s.snaps.push v, msnaps := s.msnaps.push s.mmr }
   (s, pre ++ dump s v)
+
+/-- re-tabulate the MMR column over the positions that can have been written -/
+def normMmr (s : St) (st : MMR.Store Digest) : Array (Option Digest) :=
+  let maxNum := s.blocks.foldl (fun m p => max m p.2.number) 0
+  ((List.range (MMR.leafIndexToMmrSize (maxNum + 1) + 2)).map st).toArray
+
+def mmrFn (a : Array (Option Digest)) : MMR.Store Digest := fun q => a.getD q none
+
+/-- one block through `processX` (view + MMR column); `s'` = the state with the block registered -/
+def blockStep (s s' : St) (badIds : List Nat) (b : Block) : St × String :=
+  match processX (fun x => badIds.contains x) ⟨s.v, mmrFn s.mmr⟩ b with
+  | (x', true) => commit { s' with bad := badIds, mmr := normMmr s' x'.mmr } x'.v "new "
+  | (x', false) => commit { s with txs := s'.txs } x'.v "err "
 
 /-- parse a `block` line: registers the block (and its cellbase transaction) and returns it -/
 def parseBlock (s : St) (ts : List String) : Option (St × Block) :=
@@ -169,6 +197,7 @@ def step (s : St) (ts : List String) : St × String :=
         let g : Block := { id := 0, parent := 0, number := 0, epoch := ⟨0, 0, 0⟩, txs := txl, uncles := [],
                            isHead := true, epochRec := ⟨0, 0, s.elen, ZERO_ID⟩ }
         let s := { s with blocks := [(0, g)] }
+        let s := { s with mmr := normMmr s (initX g).mmr }
         commit s (init g) ""
       | none => (s, "bad-op")
     | none => (s, "bad-op")
@@ -179,8 +208,16 @@ def step (s : St) (ts : List String) : St × String :=
     | _, _, _, _ => (s, "bad-op")
   | "block" :: _ =>
     match parseBlock s ts with
-    | some (s, b) => commit s (process s.v b) "new "
+    | some (s', b) =>
+      -- `processX` = `process` on the view whenever it succeeds (`processV_ok_is_process`); it fails
+      -- when the block makes a branch with a stored invalid block the best chain
+      blockStep s s' s.bad b
     | none => (s, "bad-op")
+  | ["xblock", id, parent, salt, epf, cb, cbid, txs, props, uncles, badTok] =>
+    match parseBlock s ["block", id, parent, salt, epf, cb, cbid, txs, props, uncles], kv badTok "bad" with
+    | some (s', b), some kind => blockStep s s' (if kind = "none" then s.bad else b.id :: s.bad) b
+    | _, _ => (s, "bad-op")
+  | ["xcols", _] => ({ s with xcols := true }, "ok")
   | ["truncate", id] =>
     match parseNat? id with
     | some id => commit s (truncate s.v id) "ok "
@@ -189,7 +226,7 @@ def step (s : St) (ts : List String) : St × String :=
     match parseNat? k with
     | some k =>
       match s.snaps[k]? with
-      | some v => (s, dump s v)
+      | some v => (s, dump { s with mmr := s.msnaps.getD k #[] } v)
       | none => (s, "bad-op")
     | none => (s, "bad-op")
   | _ => (s, "bad-op")
